@@ -41,6 +41,9 @@ FEATURES = ['sphere', 'conic', 'asphere', 'polynomial', 'chebyshev', 'mirror', '
 EDITS = ['set_thickness', 'set_thickness0', 'set_radius', 'set_conic', 'set_index', 'scale_system', 'image_solve', 'update', 'optimise']
 
 
+STRUCT_EDITS = ['remove_surface', 'insert_surface']
+
+
 def units(tier, variant):
     out = []
     singles = [(f,) for f in FEATURES]
@@ -49,6 +52,12 @@ def units(tier, variant):
         out.append(dict(features=list(fs), history=[], variant=variant))
         for e in EDITS:
             out.append(dict(features=list(fs), history=[e], variant=variant))
+    # structural edits (a surface removed / inserted in the middle): the media on the two sides of a surface need no longer be
+    # those of its neighbours; whatever lens results, the saved form must bring back the same lens
+    for fs in singles:
+        for e in STRUCT_EDITS:
+            out.append(dict(features=list(fs), history=[e], variant=variant))
+            out.append(dict(features=list(fs), history=[e, 'set_thickness'], variant=variant))
     deep = singles if tier == 'quick' else singles + pairs
     for fs in deep:
         for e1 in EDITS:
@@ -155,6 +164,11 @@ def apply_edit(o, e, v):
         o.image_solve()
     elif e == 'update':
         o.update()
+    elif e == 'remove_surface':
+        o.surface_group.remove_surface(2)
+    elif e == 'insert_surface':
+        from optiland.materials import IdealMaterial
+        o.add_surface(index=2, radius=-2.5 * p['R'], thickness=1.5, material=IdealMaterial(n=1.7, k=0.0))
     elif e == 'optimise':
         from optiland.optimization import OptimizationProblem, OptimizerGeneric
         prob = OptimizationProblem()
